@@ -11,13 +11,13 @@ from sx.harness import Shape, under, zv
 from sx.shims import STUBS  # noqa
 
 ID = 'C07'
-BUDGET_S = {'quick': 170, 'thorough': 2400}
-SHAPE_WALL_S = {'quick': 100, 'thorough': 600}
+BUDGET_S = {'quick': 280, 'thorough': 2400}
+SHAPE_WALL_S = {'quick': 240, 'thorough': 900}
 FAMILY = ('UNIT: parse_expression(text).get_value(scope) where text is rendered with minimal parentheses from an '
           'enumerated operator tree (<= 2 binary operators quick / <= 3 thorough, unary minus, LSB/BYTEn at operand '
           'positions, redundant parentheses) and every label leaf is symbolic; literal leaves from a catalogue of '
           'notations; malformed token sequences from a catalogue')
-BOUNDS = {'label leaves': '|v| <= 2^16 (W=96) / |v| <= 2^7 (trees with / or %, W=64) / |v| <= 2^8 (byte extraction of a product or shift, W=48)',
+BOUNDS = {'label leaves': '|v| <= 2^16 (W=96) / |v| <= 2^6 (trees with / or %, W=64) / |v| <= 2^8 (byte extraction of a product or shift, W=48)',
           'shift counts': '0..12', 'divisors': 'non-zero (division by zero is not judged)',
           '% operands': 'judged for integer a >= 0, b > 0 only', 'literal spellings': 'catalogue (not symbolic)'}
 ASSUMPTIONS = ['bitwise operators, shifts and byte extraction are judged on integer-valued operands only',
@@ -104,7 +104,7 @@ def has_kind(t, kinds):
 def sizing(t):
     """(bit-vector width, bound of the label leaves) chosen from the operators in the tree"""
     if has_div(t):
-        return 64, 1 << 7
+        return 64, 1 << 6
     if has_kind(t, ('lsb', 'byte')) and has_kind(t, ('*', '<<')):
         return 48, 1 << 8
     return 96, 1 << 16
@@ -169,6 +169,7 @@ def ref_eval(t, leaf, pre):
 class ExprShape(Shape):
     kind = 'UNIT'
     max_paths = 400
+    solver_timeout_ms = 150000
 
     @property
     def width(self):
